@@ -26,4 +26,18 @@ theorem entries_do_not_depend_on_options (o₁ o₂ : VOpts) (fs₁ fs₂ : PStm
     valuesL (nodeJ o₁ fuel₁ fs₁ level c p₁ q₁ n) = valuesL (nodeJ o₂ fuel₂ fs₂ level c p₂ q₂ n) :=
   values_option_independent o₁ o₂ fs₁ fs₂ level fuel₁ fuel₂ n c p₁ p₂ q₁ q₂ h₁ h₂
 
+/-- **Binary mode yields operator nodes with (at most) two children**: every operator becomes an
+    object of its own whose children are its printed operands, nothing is spliced into a parent -/
+theorem binary_mode_two_children (o : VOpts) (hb : o.bin = true) (fs : PStmt) (level : Nat) (f : Nat)
+    (op : Str) (sl sr : List Str) (m : Meta) (priv : List PNode) (l r : PNode) (c : Ctx) (pop : Option Str) (pcomp : Str) :
+    (jlistOfFragments (str ",\n")
+      [nodeJ o f fs level (childCtx c op sl sr m) (some op) (effComp c m) l,
+       nodeJ o f fs level (childCtx c op sl sr m) (some op) (effComp c m) r]).toList.length ≤ 2 :=
+  (bin_operator_children o hb fs level f op sl sr m priv l r c pop pcomp).2.2
+
+/-- in binary mode no node is spliced: each node is printed as at most one object -/
+theorem binary_mode_no_splicing (o : VOpts) (hb : o.bin = true) (fs : PStmt) (level : Nat) (fuel : Nat) (n : PNode) (c : Ctx)
+    (pop : Option Str) (pcomp : Str) : (nodeJ o fuel fs level c pop pcomp n).toList.length ≤ 1 :=
+  bin_fragment_single o hb fs level fuel n c pop pcomp
+
 end IGVerif.C17
